@@ -390,6 +390,15 @@ func (g *gen) block(d int) string {
 	case 3:
 		return "($x := 2; $f := function($y){$x + $y}; $x := 5; $f(1))"
 	case 4:
+		// partial application; the fixed arguments are literals, members of the input, paths or predicates
+		switch g.r.Intn(4) {
+		case 0:
+			return "($p := $power(?, " + g.pick("k", "v", "a[0]", "c.a", "$count(a)", "id") + "); $p(2))"
+		case 1:
+			return "($s := $substring(?, " + g.pick("k", "a[0]", "$count(a)", "1") + "); $s(" + g.pick("b", `"hello"`, "c.a") + "))"
+		case 2:
+			return "($f := $append(?, " + g.pick("a", "a.b", "c", "a[0]", "[k]") + "); $f(0))"
+		}
 		return "($add := function($a, $b){$a + $b}; $inc := $add(?, 1); $inc(" + g.numLit() + "))"
 	case 5:
 		return "(" + g.operand(d) + " ~> " + g.pick("$string", "$count", "$sum", "function($v){$v}") + ")"
@@ -423,6 +432,10 @@ func (g *gen) expr(d int) string {
 	case 10:
 		return g.name() + "^(" + g.pick("", "<", ">") + g.pick("k", "s", "a", "id") + g.pick("", ", >id", ", s") + ")"
 	case 11:
+		if g.r.Intn(3) == 0 {
+			// literal and computed keys side by side
+			return g.pick("", g.name()) + "{" + g.pick(`"kind": "tag"`, `"n": $count($)`, `"lit": k`) + ", " + g.pick("s", "$string(k)", "b", "c.a") + ": " + g.pick("id", "k", "$count($)", "v") + "}"
+		}
 		return g.name() + "{" + g.pick("s", "$string(k)", `"lit"`, "k") + ": " + g.pick("id", "$count($)", "$sum(k)", "[id]", "$") + "}"
 	case 12:
 		return "$ ~> |" + g.pick("a", "$", "*", "a.b", "**", "a[0]") + "|" + g.pick(`{"z": 1}`, `{"a": 2}`, `{"n": $count($keys($))}`, "5") + g.pick("", `, "a"`, `, ["a", "b"]`, ", 1") + "|"
